@@ -6,15 +6,21 @@ import HcipyVerif.Model.Interp
 
 ```
 lin-sep new|old ext|fill <sep> <vals> <pts>     sep = [x-axis];[y-axis];…  pts = [x,y];[x,y];…
+sample-affine <sep> <c0> <c>                    the samples of c0+Σc·x on the grid, hcipy order (`sampleAffine`, the specification side of the affine theorems)
 near-sep new|old <sep> <vals> <pts>             -> ok [v,nan,…]   (nan = fill value / outside)
 lin-tri <[ax,ay,bx,by,cx,cy]> <[va,vb,vc]> <[px,py]>   -> ok v | ok nan (degenerate simplex)
+lin-simplex <verts> <vals> <p>                  d-simplex (d+1 vertices [..];[..];…), exact barycentric interpolant -> ok v | ok nan (degenerate)
+simplex-loc <verts> <ids> <hull facets> <p>     -> ok inside|boundary|outside [λ…] | ok degenerate   (ids: vertex numbers of the simplex;
+                                                hull facets [i,j];[k,l];… = Delaunay.convex_hull, "-" = none)
 near-uns <pts> <vals> <evalpts>                 -> ok [values of all minimisers];[…] first [nearestUnstructured values]
 bin sum|mean <s> <dims> <vals>                  -> ok [..] | err value
 bins sum|mean <ss> <dims> <vals>                per-axis factors `ss` (same order as dims, slowest first)
 binpix <ss> <dims> <vals>                       the closed-form index map `boxSums` at every coarse pixel (= bins sum)
 binw <s> <dims> <vals> <weights>                weighted mean (non-regular grids)
+binws <ss> <dims> <vals> <weights>              weighted mean, per-axis factors (`binWMeans`)
 bint <s> <dims> <ncomp> <vals>                  tensor field, statistic sum (component-wise `binTensor`)
 bintl sum|mean <ss> <dims> <tshape> <vals>      tensor field as the code reshapes it (`binTensorL`: tensor axes in front, unbinned)
+supergrid <zero> <delta> <dims> <ns>             make_supersampled_grid of a regular grid: the per-axis coordinates (`superAxis`)
 ss mean|sum <c0> <c> <q> <sep> <ns>             evaluate_supersampled of c0+Σc·x+Σq·x²
 ```
 -/
@@ -29,6 +35,9 @@ def showOpt : Option Rat → String
   | none => "nan"
 
 def showOpts (l : List (Option Rat)) : String := "[" ++ ",".intercalate (l.map showOpt) ++ "]"
+
+def parseNatLists? (s : String) : Option (List (List Nat)) :=
+  if s == "-" then some [] else (s.splitOn ";").mapM parseNatList?
 
 def pair? : List Rat → Option (Rat × Rat)
   | [a, b] => some (a, b)
@@ -49,6 +58,12 @@ def step (st : St) : List String → St × String
         (st, "ok " ++ showOpts (pts.map (linearSeparatedOld ext sep vals)))
       | _, _ => (st, "bad-op")
     | _, _, _ => (st, "bad-op")
+  | ["sample-affine", sep, c0, c] =>
+    match parseRatLists? sep, parseRat? c0, parseRatList? c with
+    | some sep, some c0, some c =>
+      if c.length ≠ sep.length then (st, "bad-op") else
+      (st, "ok " ++ showRatList (sampleAffine sep.reverse c0 c.reverse))
+    | _, _, _ => (st, "bad-op")
   | ["near-sep", which, sep, vals, pts] =>
     match parseRatLists? sep, parseRatList? vals, parseRatLists? pts with
     | some sep, some vals, some pts =>
@@ -66,6 +81,20 @@ def step (st : St) : List String → St × String
     | some [ax, ay, bx, b_y, cx, cy], some [va, vb, vc], some [px, py] =>
       (st, "ok " ++ showOpt (linearTriangle (ax, ay) (bx, b_y) (cx, cy) va vb vc (px, py)))
     | _, _, _ => (st, "bad-op")
+  | ["lin-simplex", verts, vals, p] =>
+    match parseRatLists? verts, parseRatList? vals, parseRatList? p with
+    | some verts, some vals, some p =>
+      if vals.length ≠ verts.length || verts.isEmpty then (st, "bad-op") else
+      (st, "ok " ++ showOpt (linearSimplex verts vals p))
+    | _, _, _ => (st, "bad-op")
+  | ["simplex-loc", verts, ids, facets, p] =>
+    match parseRatLists? verts, parseNatList? ids, parseNatLists? facets, parseRatList? p with
+    | some verts, some ids, some facets, some p =>
+      if ids.length ≠ verts.length || verts.isEmpty then (st, "bad-op") else
+      match baryN verts p with
+      | some lam => (st, "ok " ++ (hullLoc lam ids facets).name ++ " " ++ showRatList lam)
+      | none => (st, "ok degenerate")
+    | _, _, _, _ => (st, "bad-op")
   | ["near-uns", pts, vals, ev] =>
     match parseRatLists? pts, parseRatList? vals, parseRatLists? ev with
     | some pts, some vals, some ev =>
@@ -101,7 +130,8 @@ def step (st : St) : List String → St × String
     | some ss, some dims, some vals =>
       if ss.any (· = 0) || ss.length ≠ dims.length then (st, "bad-op") else
       if vals.length ≠ fineSizes ss dims then (st, "err value") else
-      (st, "ok " ++ showRatList ((tensorPts (dims.map List.range)).map fun c =>
+      -- every multi-index of the coarse array, checked against the hypothesis `InBounds` of `bins_pixel`
+      (st, "ok " ++ showRatList (((tensorPts (dims.map List.range)).filter fun c => decide (InBounds dims c)).map fun c =>
         boxSums dims ss c (fun f => vals.getD f 0)))
     | _, _, _ => (st, "bad-op")
   | ["binw", s, dims, vals, w] =>
@@ -110,6 +140,13 @@ def step (st : St) : List String → St × String
       if s = 0 then (st, "bad-op") else
       if vals.length ≠ fineSize s dims || w.length ≠ vals.length then (st, "err value") else
       (st, "ok " ++ showRatList (binWMean s dims vals w))
+    | _, _, _, _ => (st, "bad-op")
+  | ["binws", ss, dims, vals, w] =>
+    match parseNatList? ss, parseNatList? dims, parseRatList? vals, parseRatList? w with
+    | some ss, some dims, some vals, some w =>
+      if ss.any (· = 0) || ss.length ≠ dims.length then (st, "bad-op") else
+      if vals.length ≠ fineSizes ss dims || w.length ≠ vals.length then (st, "err value") else
+      (st, "ok " ++ showRatList (binWMeans ss dims vals w))
     | _, _, _, _ => (st, "bad-op")
   | ["bint", s, dims, ncomp, vals] =>
     match parseNat? s, parseNatList? dims, parseNat? ncomp, parseRatList? vals with
@@ -129,6 +166,13 @@ def step (st : St) : List String → St × String
       | "sum" => (st, "ok " ++ showRatList r)
       | "mean" => (st, "ok " ++ showRatList (r.map (· / ((ss.foldr (· * ·) 1 : Nat) : Rat))))
       | _ => (st, "bad-op")
+    | _, _, _, _ => (st, "bad-op")
+  | ["supergrid", zero, delta, dims, ns] =>
+    match parseRatList? zero, parseRatList? delta, parseNatList? dims, parseNatList? ns with
+    | some zero, some delta, some dims, some ns =>
+      if ns.any (· = 0) || ns.length ≠ dims.length || zero.length ≠ dims.length || delta.length ≠ dims.length then (st, "bad-op") else
+      (st, "ok " ++ showRatLists ((List.zip (List.zip zero delta) (List.zip dims ns)).map fun zd =>
+        superAxis zd.1.1 zd.1.2 zd.2.1 zd.2.2))
     | _, _, _, _ => (st, "bad-op")
   | ["ss", stat, c0, c, q, sep, ns] =>
     match parseRat? c0, parseRatList? c, parseRatList? q, parseRatLists? sep, parseNatList? ns with
